@@ -269,6 +269,13 @@ def build(d, cls):
             if np.all(mask == row):
                 mask = np.broadcast_to(row, shape)
     q = cls(arr, mask, drank=len(denom))
+    if _WITH_DERIVS[0] and getattr(cls, 'DERIVS_OK', False) and arr.dtype.kind == 'f' and not denom:
+        # second pass of a case: every operand carries an unmasked derivative under the same key, so that the
+        # product rules run (their in-place accumulation must not write into an operand's mask: seeded change C16-H)
+        try:
+            q.insert_deriv('t', cls(np.ones(arr.shape), drank=len(denom)))
+        except Exception:       # noqa
+            pass
     _BUILT.append((q, _snap(q)))
     return q
 
@@ -614,6 +621,7 @@ def angles_of(d, Pm):
 
 
 _BUILT = []          # (object, snapshot) of every operand built for the current case
+_WITH_DERIVS = [False]
 
 
 def _snap(q):
@@ -632,6 +640,20 @@ def run_case(c, Pm):
             if _snap(q) != before:
                 prob = 'operand %d (%s) was modified by the operation' % (k, type(q).__name__)
                 break
+    if prob is None and len(_BUILT) >= 2 and not any(q._drank_ for q, _ in _BUILT):
+        del _BUILT[:]
+        _WITH_DERIVS[0] = True
+        try:
+            prob2, det2, _ = run_case0(c, Pm)
+        finally:
+            _WITH_DERIVS[0] = False
+        if prob2 is not None:
+            prob, det = 'with a derivative on every operand: ' + str(prob2), det2
+        else:
+            for k, (q, before) in enumerate(_BUILT):
+                if _snap(q) != before:
+                    prob = 'operand %d (%s) was modified by the operation when every operand carries a derivative' % (k, type(q).__name__)
+                    break
     del _BUILT[:]
     return prob, det, nontriv
 
